@@ -1,6 +1,7 @@
 package main
 
 import (
+	"math"
 	"encoding/hex"
 	"encoding/json"
 	"fmt"
@@ -837,6 +838,18 @@ func (propC09) Generate(r *Rand, tier string) []Case {
 		"mix=>users[each].x[each].y", "data[keep=>each:each:0]", "distinct=>data[each:each:0]", ""} {
 		out = append(out, c09MkCase(rd, s, nil, "readme", []string{"readme"}))
 	}
+	// type conversions of unusual numbers: whole floats at the int64 edge, negative zero, infinities
+	sd := map[string]any{"user": map[string]any{"a": "<<+Inf>>", "b": "<<-Inf>>", "c": "<<-0>>", "d": 9007199254740993.0, "e": 1e21, "f": 0.5, "g": -3.0, "h": 9.223372036854775807e18, "s": "12.5"}}
+	for _, sel := range []string{"user{a|string}", "user{b|string}", "user{c|string}", "user{d|string}", "user{e|string}", "user{f|string}", "user{g|string}", "user{h|string}",
+		"user{a|number}", "user{s|number, c|number}", "user{a|string, b|string, g|string}"} {
+		out = append(out, c09MkCase(deepCopy(anyMap(sd)), sel, nil, "readme", []string{"pipe:special-numbers"}))
+	}
+	// a selector longer than 256 bytes whose later segment continues from the previous result
+	long := strings.Repeat("k", 300)
+	ld := map[string]any{"items": []any{map[string]any{long: []any{1.0, 2.0}}, map[string]any{long: []any{3.0, 4.0}}}, long: map[string]any{"x": []any{5.0, 6.0}}}
+	for _, sel := range []string{"items.'" + long + "'::[0]", "items.'" + long + "'", "'" + long + "'.x::[1]", "mix=>items.'" + long + "'", "items[each].'" + long + "'::[(0:1)]"} {
+		out = append(out, c09MkCase(deepCopy(anyMap(ld)), sel, nil, "readme", []string{"selector:longer-than-256"}))
+	}
 	var doc any
 	for i := 0; i < nGram; i++ {
 		if i%6 == 0 {
@@ -907,6 +920,7 @@ func (propC09) Observe(input json.RawMessage) (Observed, error) {
 		}
 		sel = string(b)
 	}
+	in.Doc = c09Specials(in.Doc) // "<<+Inf>>" etc.: the floats JSON cannot carry
 	if !isPlain(in.Doc) {
 		return Observed{}, fmt.Errorf("document is not JSON-like")
 	}
@@ -968,4 +982,31 @@ func (propC09) Observe(input json.RawMessage) (Observed, error) {
 		note["value"] = out.val
 	}
 	return Observed{CoqIn: coqIn, CoqObs: coqObs, Note: note, Tags: tags}, nil
+}
+
+// c09Specials replaces the string sentinels for non-finite / negative-zero floats (which JSON transport cannot carry)
+// by the floats themselves.
+func c09Specials(v any) any {
+	switch t := v.(type) {
+	case string:
+		switch t {
+		case "<<+Inf>>":
+			return math.Inf(1)
+		case "<<-Inf>>":
+			return math.Inf(-1)
+		case "<<NaN>>":
+			return math.NaN()
+		case "<<-0>>":
+			return math.Copysign(0, -1)
+		}
+	case []any:
+		for i := range t {
+			t[i] = c09Specials(t[i])
+		}
+	case map[string]any:
+		for k, x := range t {
+			t[k] = c09Specials(x)
+		}
+	}
+	return v
 }
